@@ -186,6 +186,10 @@ pub fn gen_header(kind: Kind, r: &mut Rng, p_random_state: bool, cb: u8, bad_arg
             if zero_size {
                 h.sizes[0] = 0;
             }
+            if !random_state && h.with_cb && r.chance(1, 6) {
+                // a callback type without state (zero-sized); never cloned (see ZstCallback)
+                h.ctor = 9;
+            }
             if random_state && !h.with_cb && r.chance(1, 3) {
                 // conversion constructors (FromIterator / From<collection>): sizes[0] = number of pairs
                 h.ctor = r.range(1, 8) as u8;
@@ -1027,7 +1031,7 @@ pub fn gen(prop: &str, verif_seed: u64, run_index: u64, tier: Tier) -> Trace {
         let thorough = tier == Tier::Thorough;
         match h.kind {
             Kind::Lru => {
-                h.sizes = vec![*rc.pick(&[130usize, 257, 300, 1030, 1100, 1500])];
+                h.sizes = vec![*rc.pick(&[130usize, 257, 300, 1030, 1100, 1500, 1500, 4200])];
                 if thorough && rc.chance(1, 4) {
                     h.sizes = vec![*rc.pick(&[2100usize, 4200])];
                 }
@@ -1116,7 +1120,7 @@ pub fn gen(prop: &str, verif_seed: u64, run_index: u64, tier: Tier) -> Trace {
     let mut churn = false;
     if prop == "C18" && !h.random_state && h.kind.n_lists() > 0 && rc.chance(1, 250) {
         match h.kind {
-            Kind::Lru => h.sizes = vec![*rc.pick(&[15usize, 20, 28, 28, 40, 56])],
+            Kind::Lru => h.sizes = vec![*rc.pick(&[15usize, 20, 28, 28, 40, 56, 64, 100, 130])],
             Kind::Slru => h.sizes = vec![*rc.pick(&[15usize, 28, 56]), *rc.pick(&[4usize, 28])],
             Kind::TwoQ => {
                 h.sizes = vec![*rc.pick(&[28usize, 56])];
@@ -1264,6 +1268,16 @@ pub fn gen(prop: &str, verif_seed: u64, run_index: u64, tier: Tier) -> Trace {
                 for _ in 0..rs.range(1, 6) {
                     events.push(Event::new(gen_cache_op(kind, &h, &mut ro, &mut kg, &table, &mut next_val)));
                 }
+                // whole-cache operations on the filled cache: every entry is handed to user code
+                match rs.below(4) {
+                    0 => events.push(Event::new(Op::new(Code::Purge))),
+                    1 if kind == Kind::Lru => {
+                        let mut r = Op::new(Code::Resize);
+                        r.n = *rs.pick(&[0i64, 1, 3, 10]);
+                        events.push(Event::new(r));
+                    }
+                    _ => {}
+                }
             } else if scale {
                 kg.mode = 5;
                 let fill = |fam: u8, k: u32, stride: u32, n: u64, next_val: &mut u64| -> Event {
@@ -1371,7 +1385,7 @@ pub fn gen(prop: &str, verif_seed: u64, run_index: u64, tier: Tier) -> Trace {
     }
     // forker client (C16 and friends): clone, lock step, independence, drop one twin
     let cloneable = matches!(kind, Kind::Lru | Kind::Slru | Kind::Wtlfu | Kind::Tlfu);
-    if pl.forks && cloneable && !scale && !churn && (prop == "C16" || rs.chance(1, 3)) {
+    if pl.forks && cloneable && !scale && !churn && !(kind == Kind::Lru && h.ctor == 9) && (prop == "C16" || rs.chance(1, 3)) {
         let at = rs.below(events.len() as u64 + 1) as usize;
         events.insert(at, Event::new(Op::new(Code::Fork)));
         let rest = events.len() - (at + 1);
